@@ -39,6 +39,6 @@ Emit == (DoEmit /\ Len(hist) = MaxHist) =>
    PrintT(ToJson([f |-> "det", hist |-> hist, x |-> Join(RenderCompact(EncodeRoot(Doc, <<>>, EO), EO)),
                   j |-> Join(JsonOf(Doc, FALSE)), js |-> Join(JsonOf(Doc, TRUE))]))
 cKeys == {<<"-", "a">>, <<"-", "a", "-", "b">>, <<"-", "d">>, <<"b">>, <<"c">>, <<"b", "b">>, TKey}     \* (with the text key: mixed content; -a is a proper prefix of -a-b and '-' sorts before '=')
-cVals == {VS(<<>>), VS(<<"x">>), VS(<<"<", "&">>), VS(<<"\\", "u", "0", "0", "3", "c">>), VM((<<"-", "z">> :> VS(<<"1">>)) @@ (<<"y">> :> VL(<<VS(<<"2">>), VS(<<>>)>>)))}
-cValsQ == {VS(<<>>), VS(<<"<", "&">>), VS(<<"\\", "u", "0", "0", "3", "c">>), VM((<<"-", "z">> :> VS(<<"1">>)) @@ (<<"y">> :> VL(<<VS(<<"2">>), VS(<<>>)>>)))}
+cVals == {VS(<<>>), VS(<<"x", "%", "d">>), VS(<<"<", "&", "%", "s">>), VS(<<"\\", "u", "0", "0", "3", "c">>), VM((<<"-", "z">> :> VS(<<"1">>)) @@ (<<"y">> :> VL(<<VS(<<"2">>), VS(<<>>)>>)))}
+cValsQ == {VS(<<>>), VS(<<"<", "&", "%", "s">>), VS(<<"\\", "u", "0", "0", "3", "c">>), VM((<<"-", "z">> :> VS(<<"1">>)) @@ (<<"y">> :> VL(<<VS(<<"2">>), VS(<<>>)>>)))}
 =============================================================================
